@@ -50,6 +50,9 @@ int main(void) {
 #endif
 	ASSUME(IN.t1 >= BLOCK_BLOCKQUOTE && IN.t1 < 230 && IN.t2 >= BLOCK_BLOCKQUOTE && IN.t2 < 230);
 	ASSUME(IN.l1 >= 1 && IN.l1 <= N && IN.l2 <= N - IN.l1);
+#ifdef ONLY_BLANK
+	ASSUME(IN.s[0] == ' ' && (IN.t1 == NON_INDENT_SPACE || IN.l1 == 1));     /* the line is nothing but its leading blank(s) */
+#endif
 	token *line = token_new(0, 0, N);
 	token *a = token_new(IN.t1, 0, IN.l1); token_append_child(line, a);
 #ifdef ONE_TOKEN
